@@ -1452,6 +1452,31 @@ def _if_else_assign_as_ifexp(program) -> List[str]:
     return log
 
 
+def _const_getattr(program) -> List[str]:
+    """`getattr(x, "name")` with a literal identifier (typically what a helper taking the method name becomes once its
+    argument is known) is `x.name`."""
+    log: List[str] = []
+
+    class T(ast.NodeTransformer):
+        n = 0
+
+        def visit_Call(self, node):
+            self.generic_visit(node)
+            if isinstance(node.func, ast.Name) and node.func.id == "getattr" and len(node.args) == 2 and not node.keywords and isinstance(node.args[1], ast.Constant) and isinstance(node.args[1].value, str) and node.args[1].value.isidentifier():
+                T.n += 1
+                return ast.copy_location(ast.Attribute(value=node.args[0], attr=node.args[1].value, ctx=ast.Load()), node)
+            return node
+
+    for fi in program.functions.values():
+        if isinstance(fi.node, (ast.FunctionDef, ast.AsyncFunctionDef)) and getattr(fi, "parent", None) is None:
+            before = T.n
+            T().visit(fi.node)
+            if T.n > before:
+                ast.fix_missing_locations(fi.node)
+                log.append(f"{fi.qual}: {T.n - before} getattr(x, '<name>') read as x.<name>")
+    return log
+
+
 def _bound_method_aliases(program) -> List[str]:
     """`m = obj.path.method` ... `m(args)` with m assigned once and used only as a callee is `obj.path.method(args)`."""
     log: List[str] = []
@@ -1500,4 +1525,6 @@ def apply(program) -> List[str]:
     sr = _scalar_replacement(program, known) if any(k.startswith("@") for k in known) else []
     sm = _simplify_inlined(program, inl.touched) if inl.touched else []
     li = _last_index_locals(program) + _bound_method_aliases(program) + _chain_fresh_stores(program) + _if_else_assign_as_ifexp(program)
+    if inl.touched:
+        li += _const_getattr(program)
     return log + inl.log + sr + sm + li
